@@ -455,7 +455,9 @@ func (g *gen) variant(n *node) *node {
 	switch n.k {
 	case kFix, kBig:
 		f, _ := new(big.Float).SetInt(n.z).Float64()
-		switch g.rng.Intn(7) {
+		switch g.rng.Intn(8) {
+		case 7:
+			return nInt(new(big.Int).Neg(n.z))
 		case 0:
 			return nF64(f)
 		case 1:
@@ -473,7 +475,11 @@ func (g *gen) variant(n *node) *node {
 		}
 	case kRat:
 		f, _ := new(big.Rat).SetFrac(n.z, n.d).Float64()
-		switch g.rng.Intn(4) {
+		switch g.rng.Intn(6) {
+		case 4:
+			return nRat(new(big.Int).Neg(n.z), n.d)
+		case 5:
+			return nRat(n.d, n.z) // the reciprocal (sign moves to the numerator)
 		case 0:
 			return nF64(f)
 		case 1:
@@ -485,7 +491,14 @@ func (g *gen) variant(n *node) *node {
 		return nRat(n.z, n.d)
 	case kF32, kF64:
 		bf := new(big.Float).SetFloat64(n.f)
-		switch g.rng.Intn(5) {
+		switch g.rng.Intn(6) {
+		case 5:
+			if n.f != 0 {
+				if n.k == kF32 {
+					return nF32(float32(-n.f))
+				}
+				return nF64(-n.f)
+			}
 		case 0:
 			return nF64(n.f)
 		case 1:
